@@ -234,10 +234,11 @@ func renderField(f *Field) string {
 }
 
 type sdlBuilder struct {
-	m     *Model
-	svc   int // -1 = union schema
-	need  map[string]bool
-	order []string
+	nodeRef bool // the Node interface itself is referenced by a field
+	m       *Model
+	svc     int // -1 = union schema
+	need    map[string]bool
+	order   []string
 }
 
 func (b *sdlBuilder) want(name string) {
@@ -248,6 +249,10 @@ func (b *sdlBuilder) want(name string) {
 }
 
 func (b *sdlBuilder) wantRef(t TypeRef) {
+	if t.Name == "Node" {
+		b.nodeRef = true
+		return
+	}
 	switch t.Kind {
 	case KScalar:
 		for _, s := range b.m.Scalars {
@@ -494,7 +499,7 @@ func (m *Model) RenderSDL(svc int) string {
 		}
 		out.WriteString("scalar " + name + "\n")
 	}
-	if usesNode {
+	if usesNode || b.nodeRef {
 		out.WriteString("interface Node {\n  id: ID!\n}\n")
 	}
 	return out.String()
